@@ -2,7 +2,7 @@
    PARTIAL: proved for the conversion step shared by all store channels and for the assignment channel's
    store sequence; the other channels (argument binding, RETURN, INPUT) run the same conversion and are
    compared by the correspondence. *)
-From PE2 Require Import Eval Lemmas_Store.
+From PE2 Require Import Eval Lemmas_Store Lemmas_Out.
 Local Open Scope Z_scope.
 
 (* implicitCast always succeeds, keeps tag and payload in agreement, and makes the value's type equal to
@@ -43,3 +43,20 @@ Theorem C05_failed_store_no_effect : forall t c id v s cl,
 Proof. exact rejected_store_no_effect. Qed.
 Print Assumptions C05_failed_store_no_effect.
 
+
+(* over the whole evaluator: whatever a block does (assignments through every channel, calls, INPUT, file
+   statements, errors, fuel exhaustion), every variable that exists keeps its name, its declared type, its CONSTANT
+   flag and its owner, and does not disappear; only payloads change, and only through the one payload update *)
+Theorem C05_variables_keep_their_declared_type : forall ped repl lim fuel bl c s id cl,
+  (forall j x, nm_get j (s_cells s) = Some x -> (j < s_next s)%N) -> nm_get id (s_cells s) = Some cl ->
+  exists cl', nm_get id (s_cells (snd (run_block ped repl lim fuel bl c s))) = Some cl' /\
+              c_const cl' = c_const cl /\ c_type cl' = c_type cl /\ c_name cl' = c_name cl.
+Proof. exact constant_flag_and_type_are_permanent. Qed.
+Print Assumptions C05_variables_keep_their_declared_type.
+
+(* the premise holds initially (no cells) and is itself kept by every execution *)
+Theorem C05_premise_is_invariant : forall ped repl lim fuel bl c s,
+  (forall j x, nm_get j (s_cells s) = Some x -> (j < s_next s)%N) ->
+  (forall j x, nm_get j (s_cells (snd (run_block ped repl lim fuel bl c s))) = Some x -> (j < s_next (snd (run_block ped repl lim fuel bl c s)))%N).
+Proof. intros ped repl lim fuel bl c s H. exact (proj1 (run_block_keeps_cell_identity ped repl lim fuel bl c s H)). Qed.
+Print Assumptions C05_premise_is_invariant.
